@@ -370,6 +370,62 @@ def fam_reuse(E, kinds=(MOMENT, AFTER, DELAY), real=False):
         entry = want + gap
 
 
+def fam_reuse_runs(E, kinds=(MOMENT, AFTER, DELAY), real=False):
+    """one stored date notification object is used in two *consecutive simulations* (run() calls
+    with symbolic start times, so that the second one may start before the date the first one
+    has passed): each simulation has its own clock, whatever the first left in the object must
+    not matter"""
+    kind = kinds[E.pick('kind', len(kinds))]
+    u = E.num('u', 0, 40, real=real)
+    n = (time + u) if kind == DELAY else ((time == u) if kind == MOMENT else (time >= u))
+    for i in range(2):
+        start = E.num('start%d' % i, 0, 40, real=real)
+        use = E.pick('use%d' % i, 2)
+        b = E.num('b%d' % i, 0, 30, real=real)
+        log = Log()
+
+        async def owner():
+            log('own', 'enter')
+            try:
+                if use == 0:
+                    async with until(n):
+                        await (time + b)
+                        log('own', 'body-end')
+                else:
+                    async with until(time + b):
+                        await n
+                        log('own', 'body-end')
+                log('own', 'exit', None)
+            except BaseException as exc:     # noqa
+                log('own', 'exit', exc)
+
+        out = simulate(owner(), start=start, log=log)
+        bad = classify_run_exception(out.exc, allowed=())
+        E.prove(bad is None, 'run-ends-normally', bad)
+        if out.exc is not None:
+            return
+        en, ex = log.first('own', 'enter'), log.first('own', 'exit')
+        if not E.prove(en is not None and ex is not None, 'blocks-left', ('run %d', i)):
+            return
+        E.prove(ex[3] is None, 'until-block-never-raises', ('%r', ex[3]))
+        E.prove(EQ(en[2], start), 'enters-on-time')
+        t = trigger_model(kind, start, u, None)
+        want = start + b if t is NEVER else MIN(t, start + b)
+        E.prove(EQ(ex[2], want), 'block-ends-at-min(trigger,completion)',
+                ('run %d from %r: %s of a stored %s: left at %r, expected %r', i, start,
+                 'until(n)' if use == 0 else 'await n in until(time+b)', NAMES[kind], ex[2], want))
+        done = log.has('own', 'body-end')
+        if use == 1:
+            if t is not NEVER and LT(t, start + b):
+                E.prove(done, 'direct-wait-completes')
+            if t is NEVER or GT(t, start + b):
+                E.prove(not done, 'direct-wait-abandoned')
+        if i == 1:
+            E.reach('second-run')
+            if kind != DELAY:
+                E.reach_if(LT(start, u), 'second-run-starts-before-the-date')
+
+
 def fam_till(E, real=False, ticker=True):
     start = E.num('start', -10, 10, real=real)
     dT = E.num('dT', 0, 40, real=real)
@@ -442,6 +498,10 @@ FAMILIES = [
            thorough=dict(kinds=(MOMENT, AFTER, DELAY), shared=True),
            reach=['equal-deadlines', 'outer-never'],
            bounds='two nested until-blocks on one and the same notification object'),
+    Family('reuse_runs', fam_reuse_runs, quick=dict(), thorough=dict(real=True),
+           reach=['second-run', 'second-run-starts-before-the-date'],
+           bounds='one stored `time == u` / `time >= u` / `time + u` object used in two consecutive '
+                  'simulations with symbolic start times'),
     Family('reuse', fam_reuse, quick=dict(), thorough=dict(real=True),
            reach=['first-wait-abandoned', 'second-use-already-true', 'second-use-never'],
            bounds='a stored time == u / time >= u / time + u object used in two successive phases (until(n) '
